@@ -560,4 +560,209 @@ theorem forest_inv (P : GParams) (infs recs : List Node) (tmin : Rat) (hi : infs
           simp only [Option.none_or, List.find?_cons, beq_self_eq_true]
           exact reachesRoot_append _ _ _ _ (i3 u hu)
 
+/-! ### assembling `transmissionsValid` -/
+
+theorem hist_getD (P : GParams) (infs recs : List Node) (tmin : Rat) (lg : List (Rat × GEvent))
+    (hrange : P.nodes = List.range P.nodes.length) (v : Node) (hv : v < P.nodes.length) :
+    (histories tmin (initName infs recs) (logOf P.sis lg) P.nodes).getD v [] =
+      HH tmin (initStatus infs recs) P.sis lg v := by
+  have hget : P.nodes[v]? = some v := by
+    have : P.nodes[v]? = (List.range P.nodes.length)[v]? := congrArg (fun l => l[v]?) hrange
+    rw [this, List.getElem?_range hv]
+  unfold histories
+  rw [List.getD_eq_getElem?_getD, List.getElem?_map, hget]
+  rfl
+
+theorem mem_nodes_lt (P : GParams) (hrange : P.nodes = List.range P.nodes.length) (v : Node) (hv : v ∈ P.nodes) :
+    v < P.nodes.length := by
+  rw [hrange] at hv
+  exact List.mem_range.1 hv
+
+theorem tv_sorted (P : GParams) (init : Node → St) (infs : List Node) (tmin : Rat) (lg : List (Rat × GEvent))
+    (hv : ValidLg P init tmin lg) :
+    nondecreasing ((transOf tmin infs lg).map (·.t)) = true := by
+  apply nondecreasing_of_pairwise
+  unfold transOf
+  rw [List.map_append, List.pairwise_append]
+  refine ⟨?_, transB_sorted P init tmin lg hv, ?_⟩
+  · rw [List.map_map]
+    induction infs with
+    | nil => simp
+    | cons a t ih =>
+      rw [List.map_cons, List.pairwise_cons]
+      refine ⟨?_, ih⟩
+      intro b hb
+      obtain ⟨u, -, rfl⟩ := List.mem_map.1 hb
+      exact le_refl _
+  · intro a ha b hb
+    rw [List.map_map] at ha
+    obtain ⟨u, -, rfl⟩ := List.mem_map.1 ha
+    obtain ⟨x, hx, rfl⟩ := List.mem_map.1 hb
+    obtain ⟨e, he, u', v', -, rfl⟩ := transB_mem lg x hx
+    exact validLg_lower P init tmin lg hv e he
+
+theorem tv_causal (P : GParams) (infs recs : List Node) (tmin : Rat) (lg : List (Rat × GEvent))
+    (hrange : P.nodes = List.range P.nodes.length)
+    (hv : ValidLg P (initStatus infs recs) tmin lg) (spec : TVSpec) (hind : spec.induced = [("I", "S", "I")]) :
+    ∀ x ∈ transOf tmin infs lg,
+      (match x.src with
+        | some u =>
+          (P.nbrs u).contains x.tgt &&
+            spec.induced.any fun x_1 =>
+              hasStatusClosed ((histories tmin (initName infs recs) (logOf P.sis lg) P.nodes).getD u []) x_1.1 x.t &&
+                changesAt ((histories tmin (initName infs recs) (logOf P.sis lg) P.nodes).getD x.tgt [])
+                  x_1.2.1 x_1.2.2 (x.t + 0)
+        | none => infs.contains x.tgt && x.t + 0 == tmin) = true := by
+  intro x hx
+  unfold transOf at hx
+  rcases List.mem_append.1 hx with hx | hx
+  · obtain ⟨u, hu, rfl⟩ := List.mem_map.1 hx
+    simp [hu]
+  · obtain ⟨e, he, u, v, hev, rfl⟩ := transB_mem lg x hx
+    obtain ⟨a1, a2, a3, a4, a5⟩ := trans_causal P (initStatus infs recs) tmin lg hv e he u v hev
+    rw [hind]
+    simp only [List.any_cons, List.any_nil, Bool.or_false, Bool.and_eq_true, add_zero]
+    rw [hist_getD P infs recs tmin lg hrange u (mem_nodes_lt P hrange u a1),
+      hist_getD P infs recs tmin lg hrange v (mem_nodes_lt P hrange v a2)]
+    exact ⟨by simpa using a3, hasStatusClosed_of _ _ _ a4, changesAt_of _ _ _ _ a5⟩
+
+theorem filter_length_count {α : Type} (l : List α) (f : α → Node) (i : Node) :
+    (l.filter fun e => f e == i).length = (l.map f).count i := by
+  induction l with
+  | nil => rfl
+  | cons a t ih =>
+    rw [List.filter_cons, List.map_cons, List.count_cons]
+    by_cases h : f a = i <;> simp [h, ih]
+
+theorem tv_counts (P : GParams) (infs recs : List Node) (tmin : Rat) (lg : List (Rat × GEvent))
+    (hrange : P.nodes = List.range P.nodes.length) (hi : infs.Nodup)
+    (hv : ValidLg P (initStatus infs recs) tmin lg) (spec : TVSpec) (hind : spec.induced = [("I", "S", "I")])
+    (hsp : ∃ r, spec.spont = [("I", r)]) :
+    ∀ i < P.nodes.length,
+      (changeCount ((histories tmin (initName infs recs) (logOf P.sis lg) P.nodes).getD i []) fun b c =>
+            (spec.induced.any fun x => b == x.2.1 && c == x.2.2) && !spec.spont.contains (b, c)) ≤
+          (List.filter (fun e => e.tgt == i && e.src.isSome) (transOf tmin infs lg)).length ∧
+        ((List.filter (fun e => e.tgt == i && e.src.isSome) (transOf tmin infs lg)).length ≤
+            changeCount ((histories tmin (initName infs recs) (logOf P.sis lg) P.nodes).getD i []) fun b c =>
+              spec.induced.any fun x => b == x.2.1 && c == x.2.2) ∧
+          ((List.filter (fun e => e.tgt == i && e.src.isNone) (transOf tmin infs lg)).length ==
+              if infs.contains i = true then 1 else 0) = true := by
+  intro i hiN
+  obtain ⟨r, hr⟩ := hsp
+  rw [hist_getD P infs recs tmin lg hrange i hiN, hind, hr]
+  have hB : ∀ x ∈ transB lg, x.src.isSome = true := by
+    intro x hx
+    obtain ⟨e, -, u, v, -, rfl⟩ := transB_mem lg x hx
+    rfl
+  have k1 : (List.filter (fun e => e.tgt == i && e.src.isSome) (transOf tmin infs lg)).length =
+      ((transB lg).filter fun x => x.tgt == i).length := by
+    unfold transOf
+    rw [List.filter_append, List.length_append]
+    have e1 : (List.filter (fun e => e.tgt == i && e.src.isSome)
+        (infs.map fun u => ({ t := tmin, src := none, tgt := u } : Trans))) = [] := by
+      rw [List.filter_eq_nil_iff]
+      intro x hx
+      obtain ⟨u, -, rfl⟩ := List.mem_map.1 hx
+      simp
+    rw [e1, List.length_nil, Nat.zero_add]
+    congr 1
+    apply List.filter_congr
+    intro x hx
+    rw [hB x hx, Bool.and_true]
+  have k2 : (List.filter (fun e => e.tgt == i && e.src.isNone) (transOf tmin infs lg)).length =
+      if i ∈ infs then 1 else 0 := by
+    unfold transOf
+    rw [List.filter_append, List.length_append]
+    have e1 : (List.filter (fun e => e.tgt == i && e.src.isNone) (transB lg)) = [] := by
+      rw [List.filter_eq_nil_iff]
+      intro x hx
+      have := hB x hx
+      cases hs : x.src with
+      | none => rw [hs] at this; cases this
+      | some u => simp
+    rw [e1, List.length_nil, Nat.add_zero]
+    have e2 : (List.filter (fun e => e.tgt == i && e.src.isNone)
+        (infs.map fun u => ({ t := tmin, src := none, tgt := u } : Trans))) =
+        (List.filter (fun e => e.tgt == i)
+        (infs.map fun u => ({ t := tmin, src := none, tgt := u } : Trans))) := by
+      apply List.filter_congr
+      intro x hx
+      obtain ⟨u, -, rfl⟩ := List.mem_map.1 hx
+      simp
+    rw [e2, filter_length_count, List.map_map]
+    have e3 : ((fun x : Trans => x.tgt) ∘ fun u => ({ t := tmin, src := none, tgt := u } : Trans)) = id := rfl
+    rw [e3, List.map_id, hi.count]
+  rw [k1, k2]
+  have c1 := trans_count P (initStatus infs recs) tmin lg hv
+    (fun b c => ([("I", "S", "I")].any fun x => b == x.2.1 && c == x.2.2) && ![("I", r)].contains (b, c))
+    (by simp) (by intro a; simp) (by intro a; simp) i
+  have c2 := trans_count P (initStatus infs recs) tmin lg hv
+    (fun b c => ([("I", "S", "I")].any fun x => b == x.2.1 && c == x.2.2))
+    (by simp) (by intro a; simp) (by intro a; simp) i
+  rw [c1, c2]
+  refine ⟨le_refl _, le_refl _, ?_⟩
+  by_cases hm : i ∈ infs <;> simp [hm]
+
+theorem tv_forest (P : GParams) (infs recs : List Node) (tmin : Rat) (lg : List (Rat × GEvent))
+    (hi : infs.Nodup) (him : ∀ u ∈ infs, u ∈ P.nodes) (hsis : P.sis = false)
+    (hv : ValidLg P (initStatus infs recs) tmin lg) :
+    (∀ i < P.nodes.length, (List.filter (fun e => e.tgt == i) (transOf tmin infs lg)).length ≤ 1) ∧
+    ∀ x ∈ transOf tmin infs lg, reachesRoot (transOf tmin infs lg) (P.nodes.length + 1) x.tgt = true := by
+  obtain ⟨f1, -, f3⟩ := forest_inv P infs recs tmin hi hsis lg hv
+  constructor
+  · intro i _
+    rw [filter_length_count, transOf_tgt]
+    exact List.nodup_iff_count_le_one.1 f1 i
+  · intro x hx
+    have hmem : x.tgt ∈ TG infs lg := by
+      rw [← transOf_tgt tmin]; exact List.mem_map.2 ⟨x, hx, rfl⟩
+    refine reachesRoot_fuel_mono _ _ _ _ (f3 x.tgt hmem) ?_
+    have hlen : (transOf tmin infs lg).length = (TG infs lg).length := by
+      rw [← transOf_tgt tmin, List.length_map]
+    have hsub : TG infs lg ⊆ P.nodes := by
+      intro v hvm
+      unfold TG at hvm
+      rcases List.mem_append.1 hvm with hvm | hvm
+      · exact him v hvm
+      · obtain ⟨y, hy, rfl⟩ := List.mem_map.1 hvm
+        obtain ⟨e, he, u, w, hev, rfl⟩ := transB_mem lg y hy
+        exact (trans_causal P (initStatus infs recs) tmin lg hv e he u w hev).2.1
+    have := (List.subperm_of_subset f1 hsub).length_le
+    omega
+
+/-- **C09 for valid logs** -/
+theorem tv_of_valid (P : GParams) (infs recs : List Node) (tmin : Rat) (lg : List (Rat × GEvent))
+    (hi : infs.Nodup) (him : ∀ u ∈ infs, u ∈ P.nodes) (hrange : P.nodes = List.range P.nodes.length)
+    (hv : ValidLg P (initStatus infs recs) tmin lg) :
+    transmissionsValid (if P.sis then sisSpec else sirSpec) (!P.sis) 0 P.nodes.length P.nbrs tmin infs
+      (histories tmin (initName infs recs) (logOf P.sis lg) P.nodes) (transOf tmin infs lg) = true := by
+  rcases Bool.eq_false_or_eq_true P.sis with hsis | hsis
+  · have e1 : (if P.sis then sisSpec else sirSpec) = sisSpec := by rw [hsis]; rfl
+    have e2 : (!P.sis) = false := by rw [hsis]; rfl
+    rw [e1, e2]
+    simp only [transmissionsValid, Bool.and_eq_true, and_assoc, allIdx_iff, Bool.not_false, Bool.true_or,
+      List.all_eq_true, decide_eq_true_eq, and_true]
+    exact ⟨tv_sorted P _ infs tmin lg hv, tv_causal P infs recs tmin lg hrange hv sisSpec rfl,
+      tv_counts P infs recs tmin lg hrange hi hv sisSpec rfl ⟨"S", rfl⟩⟩
+  · have e1 : (if P.sis then sisSpec else sirSpec) = sirSpec := by rw [hsis]; rfl
+    have e2 : (!P.sis) = true := by rw [hsis]; rfl
+    rw [e1, e2]
+    simp only [transmissionsValid, Bool.and_eq_true, and_assoc, allIdx_iff, Bool.not_true, Bool.false_or,
+      List.all_eq_true, decide_eq_true_eq]
+    obtain ⟨g1, g2⟩ := tv_forest P infs recs tmin lg hi him hsis hv
+    exact ⟨tv_sorted P _ infs tmin lg hv, tv_causal P infs recs tmin lg hrange hv sirSpec rfl,
+      tv_counts P infs recs tmin lg hrange hi hv sirSpec rfl ⟨"R", rfl⟩, g1, g2⟩
+
+theorem tv_run (P : GParams) (h : WF P) (infs recs : List Node) (tmin : Rat) (tmax : ERat) (fuel cfuel : Nat)
+    (hi : infs.Nodup) (him : ∀ u ∈ infs, u ∈ P.nodes)
+    (hdis : ∀ u ∈ infs, u ∉ recs) (hsis : P.sis = true → recs = [])
+    (hrange : P.nodes = List.range P.nodes.length)
+    (ts ts' : TapeSt) (hts : TapeNonneg ts) (s' : GState)
+    (hrun : run P infs recs tmin tmax fuel cfuel ts = .ok (s', ts')) :
+    transmissionsValid (if P.sis then sisSpec else sirSpec) (!P.sis) 0 P.nodes.length P.nbrs tmin infs
+      (histories tmin (initName infs recs) (gLog P s') P.nodes) (gTrans tmin infs s') = true := by
+  have hL := logInv_run P h infs recs tmin tmax fuel cfuel hi him hdis hsis ts ts' hts s' hrun
+  rw [gLog_eq, gTrans_eq]
+  exact tv_of_valid P infs recs tmin s'.log hi him hrange hL.valid
+
 end Gillespie
